@@ -619,6 +619,49 @@ def fractional_second_stratum(ctx: Ctx, rng: random.Random, stats: dict):
     return out
 
 
+def negative_time_stratum(ctx: Ctx, rng: random.Random, stats: dict):
+    """Epoch-split twins whose scenario start date lies AFTER the state epoch: (start = E, t0 = 0) against
+    (start = E + D, t0 = -D) - negative elapsed seconds.  Windows [-D, -D + span] that straddle 0, that are entirely
+    negative, and that cross a whole negative day.  Perturbed dynamics (4 x 4, moon), rtol 1e-13, plain tolerance
+    3e-7 km (1 + revolutions)^2: an epoch that is off by a day moves the Moon by 13 deg, about 1e-4 km after 1200 s in LEO."""
+    cases = [("straddles zero", 400.0, 1200.0, "DOP853"), ("entirely negative", 3000.0, 1200.0, "RK45"),
+             ("crosses minus one day", 86400.0 + 500.0, 1200.0, "DOP853")]
+    if not ctx.quick:
+        cases += [("straddles zero", 1800.0, 10800.0, "RK45"), ("entirely negative", 200000.0, 3600.0, "DOP853"),
+                  ("crosses minus two days", 2 * 86400.0 + 1000.0, 3600.0, "RK45"), ("ends at zero", 2400.0, 2400.0, "DOP853")]
+    out = {"cases": 0, "max_ratio": 0.0}
+    for name, back, span, method in cases:
+        jd0 = 2458484.5 + rng.randrange(0, 700) + rng.randrange(0, 86400) / 86400.0
+        el, x0, period = random_orbit(rng)
+        while el["e"] > 0.3:
+            el, x0, period = random_orbit(rng)
+        dyn_a = make_dyn("sp", method, True, jd0, False)
+        dyn_b = make_dyn("sp", method, True, jd0 + back / 86400.0, False)
+        try:
+            with guard(900.0):
+                ya = np.asarray(dyn_a.propagate(0.0, span, x0.copy()), dtype=float)
+                yb = np.asarray(dyn_b.propagate(-back, -back + span, x0.copy()), dtype=float)
+        except Hang:
+            raise tlc.MachineryError("negative-time stratum: propagation without events did not return in 900 s")
+        sc = (1.0 + span / period) ** 2
+        dr, dv = np.abs(ya - yb)[:3].max(), np.abs(ya - yb)[3:].max()
+        out["cases"] += 1
+        out["max_ratio"] = max(out["max_ratio"], dr / (BASE_R * sc), dv / (BASE_V * sc))
+        stats["epoch_shift_checks"] += 1
+        ctx.case(("negative-time", name, method, span, round(el["a"])), nontrivial=True)
+        if dr > BASE_R * sc or dv > BASE_V * sc:
+            sig = "real:sp:epoch-split-with-negative-elapsed-time"
+            stats["violations"] += 1
+            stats["by_signature"][sig] = stats["by_signature"].get(sig, 0) + 1
+            ctx.violation(sig, f"(b) real sp/{method} (rtol 1e-13): {span:g} s from one epoch written as (start = epoch, t0 = 0) and as "
+                          f"(start = epoch + {back:g} s, t0 = {-back:g} s; window {name}) differ by {dr:.3g} km / {dv:.3g} km/s "
+                          f"(tolerance {BASE_R * sc:.2g} / {BASE_V * sc:.2g}; a = {el['a']:.0f} km)",
+                          {"part": "negative-time", "jd_epoch": jd0, "start_after_epoch_s": back, "span_s": span, "method": method,
+                           "orbit": el})
+    ctx.traces_validated += out["cases"]
+    return out
+
+
 def shadow_stratum(ctx: Ctx, rng: random.Random, stats: dict):
     """BulkConsistent / batch-vs-single with the columns in DIFFERENT force regimes: solar radiation pressure on, one
     column sunlit for the whole call, another inside the Earth's umbra for the whole call (a low circular orbit in a plane
@@ -714,6 +757,7 @@ def real_replay(ctx: Ctx, behs, rng: random.Random):
     epoch_boundary_stratum(ctx, random.Random(rng.getrandbits(32)), stats)
     stats["shadow"] = shadow_stratum(ctx, random.Random(rng.getrandbits(32)), stats)
     stats["fractional_second_start"] = fractional_second_stratum(ctx, random.Random(rng.getrandbits(32)), stats)
+    stats["negative_elapsed_time"] = negative_time_stratum(ctx, random.Random(rng.getrandbits(32)), stats)
     # behaviours in which the caller drops the events while the burn is ON, through the perturbed dynamics (the only real
     # model that reads finite_thrust): a fixed share of the sample, whatever the stratified draw below picks
     live_drop = sorted((b for b in behs if dropped(b) and b["burn"]["kind"] != "none" and b["burn"]["ts"] < b["dropAt"] and b["K"] <= 2),
@@ -836,7 +880,7 @@ def run(ctx: Ctx):
                 "SpecialPerturbations x RK45 / DOP853 x (rtol 1e-13 | shipped tolerances), seeded orbits a in [6700, 70000] km "
                 "log-uniform, e <= 0.7, any inclination incl. 0/90/180, tick 2 s .. 4320 s (17280 s in thorough: a day). "
                 "Fixed strata: 6 calendar boundaries (epoch-shift twin), 4 (thorough 12) sunlit/umbra batches with SRP on, 4 (16) "
-                "dropped-while-thrusting behaviours through SpecialPerturbations, 3 (7) fractional-second epoch splits, 4 (40) tight "
+                "dropped-while-thrusting behaviours through SpecialPerturbations, 3 (7) fractional-second and 3 (7) negative-elapsed-time epoch splits, 4 (40) tight "
                 "clusters; neighbour calls on the exact law. Non-trivial = more than one call, a batch, or a bulk call.")
     ctx.assumptions = [
         "REDUCED STRENGTH: for real dynamics the comparisons are relations between implementation runs (and closed-form Kepler for "
@@ -869,6 +913,8 @@ def run(ctx: Ctx):
         "epoch-split twins with a fractional-second start (x.400, x.500, x.600; thorough also .999, .250, .750) against a whole-second "
         "start with fractional t0: arcs of 1200 .. 3600 s (7200 s thorough), where 0.4 s of Earth rotation shows 10 x above the "
         "tolerance 3e-7 km (1 + revolutions)^2; start dates through resonaate's datetimeToJulianDate (a Julian date resolves 4e-5 s)",
+        "epoch-split twins also with the scenario start AFTER the state epoch (negative elapsed seconds: windows straddling 0, "
+        "entirely negative, crossing whole negative days), arcs of 1200 s (thorough to 10800 s), same tolerance model",
         "accuracy of perturbed propagation against an external truth is not decided",
     ]
     res, behs = K.run_spec(ctx, "calls", "Kinematics.tla Mode=calls: all call sequences/batches/grids; C03 invariants + behaviours",
